@@ -4,7 +4,7 @@
 (* self-loops, sharing, unreachable nodes, alias spellings on child edges),*)
 (* every history of <= MaxHist root registrations.  Also the case emitter  *)
 (* for the spec -> implementation replay.                                  *)
-EXTENDS Registry, Json
+EXTENDS Registry, Shapes, Json
 CONSTANTS N, MaxKids, MaxHist, WithMany
 VARIABLES hist, rets
 mvars == <<info, table, types, stack, evals, ret, hist, rets>>
@@ -12,27 +12,7 @@ Ids == 0..(N-1)
 KidSeqs == UNION {[1..k -> Ids] : k \in 0..MaxKids}
 W(t, k) == (t + k) % 6                     \* wrapper of the k-th child edge of node t
 SpOf(t, ks, k) == [t |-> ks[k], w |-> W(t, k)]
-Nm(t) == "N" \o ToString(t)
-F(name, sp, tn, docs) == [name |-> name, ty |-> sp, tn |-> tn, docs |-> docs]
-\* a concrete definition for node t with ordered children ks; the shape varies with t and Len(ks)
-DefOf(t, ks) ==
-  LET k == Len(ks) c1 == SpOf(t, ks, 1) c2 == SpOf(t, ks, 2) IN
-  CASE k = 0 /\ t % 3 = 0 -> [tag |-> "primitive", prim |-> "u8"]
-    [] k = 0 /\ t % 3 = 1 -> [tag |-> "composite", fields |-> <<>>]
-    [] k = 0 /\ t % 3 = 2 -> [tag |-> "variant", variants |-> <<[name |-> "A", fields |-> <<>>, index |-> 7, docs |-> <<"dv">>]>>]
-    [] k = 1 /\ t % 4 = 0 -> [tag |-> "sequence", ty |-> c1]
-    [] k = 1 /\ t % 4 = 1 -> [tag |-> "array", len |-> 3, ty |-> c1]
-    [] k = 1 /\ t % 4 = 2 -> [tag |-> "compact", ty |-> c1]
-    [] k = 1 /\ t % 4 = 3 -> [tag |-> "composite", fields |-> <<F(<<"x">>, c1, <<"X">>, <<"fx">>)>>]
-    [] k = 2 /\ t % 4 = 0 -> [tag |-> "bitsequence", store |-> c1, order |-> c2]
-    [] k = 2 /\ t % 4 = 1 -> [tag |-> "tuple", tys |-> <<c1, c2>>]
-    [] k = 2 /\ t % 4 = 2 -> [tag |-> "variant", variants |->
-                                << [name |-> "A", fields |-> <<F(<<>>, c1, <<>>, <<>>)>>, index |-> 1, docs |-> <<>>],
-                                   [name |-> "B", fields |-> <<F(<<"b">>, c2, <<"Tb">>, <<"d1", "d2">>)>>, index |-> 0, docs |-> <<"vb">>] >>]
-    [] k = 2 /\ t % 4 = 3 -> [tag |-> "composite", fields |-> <<F(<<"y">>, c2, <<>>, <<>>)>>]
-ParamsOf(t, ks) == IF Len(ks) = 2 /\ t % 4 = 3
-                   THEN <<[name |-> "T", ty |-> Some(SpOf(t, ks, 1))], [name |-> "U", ty |-> None]>> ELSE <<>>
-InfoOf(t, ks) == [path |-> <<"m", Nm(t)>>, params |-> ParamsOf(t, ks), def |-> DefOf(t, ks), docs |-> <<"doc " \o Nm(t)>>]
+InfoOf(t, ks) == ShapeBody(t, [k \in 1..Len(ks) |-> SpOf(t, ks, k)])
 PhantomInfo == [path |-> <<"PhantomData">>, params |-> <<>>, def |-> [tag |-> "composite", fields |-> <<>>],
                 docs |-> <<"PhantomData placeholder, this type should be filtered out">>]
 UniverseOf(kids) == [t \in 0..N |-> IF t = N THEN PhantomInfo ELSE InfoOf(t, kids[t])]
